@@ -308,7 +308,10 @@ class IgnoreMask:
                 (
                     ignore
                     for ignore in ignore_mask
-                    if not ignore.rules or (v.rule_code() in ignore.rules)
+                    # NOTE: `None` means "all rules". An *empty* tuple means the
+                    # directive only named rules which aren't allowed to be
+                    # ignored (see `disable_noqa_except`) and so affects none.
+                    if ignore.rules is None or (v.rule_code() in ignore.rules)
                 ),
                 key=lambda ignore: ignore.line_no,
             )
